@@ -20,11 +20,12 @@ func init() {
 }
 
 type chanHarness struct {
-	scratch string
-	driver  string
-	xrep    map[string]*xlate.Report
-	entries []string
-	buildS  float64
+	scratch  string
+	driver   string
+	driver21 string // same catalogue translated with language version go1.21 (shared loop variables)
+	xrep     map[string]*xlate.Report
+	entries  []string
+	buildS   float64
 }
 
 var chanEntriesFor = map[string][]string{
@@ -77,21 +78,54 @@ func buildChanHarness(prop string) *chanHarness {
 			harnessTrouble("generation of the concurrency catalogue failed (that is C01/C09's subject, not %s's): %s", prop, e)
 		}
 	}
-	for _, e := range all {
-		rep, err := xlate.TranslateDir(filepath.Join(hd, "cat", e), filepath.Join(hd, "t", e), true)
-		if err != nil {
-			harnessTrouble("translating catalogue entry %s: %v", e, err)
+	// two translations of the same generated text: the module's language
+	// version (per-iteration loop variables), and go1.21 (one loop variable
+	// shared by all iterations: what a user module with an older go line gets)
+	for vi, lang := range []string{"", "go1.21"} {
+		hv := hd
+		if vi == 1 {
+			hv = filepath.Join(h.scratch, "h21")
+			os.MkdirAll(hv, 0o755)
+			os.WriteFile(filepath.Join(hv, "go.mod"), []byte(gomod), 0o644)
 		}
-		h.xrep[e] = rep
+		for _, e := range all {
+			rep, err := xlate.TranslateDir(filepath.Join(hd, "cat", e), filepath.Join(hv, "t", e), true, lang)
+			if err != nil {
+				harnessTrouble("translating catalogue entry %s: %v", e, err)
+			}
+			if vi == 0 {
+				h.xrep[e] = rep
+			}
+		}
+		drv := filepath.Join(hv, "driver")
+		if err := copyTree(filepath.Join(verifRoot, "harness/chan/_driver"), drv, nil); err != nil {
+			harnessTrouble("copy driver: %v", err)
+		}
+		out := filepath.Join(h.scratch, "driver.bin")
+		if vi == 1 {
+			out = filepath.Join(h.scratch, "driver21.bin")
+			h.driver21 = out
+		} else {
+			h.driver = out
+		}
+		mustRun("build simulation driver "+lang, hv, goEnv(), 10*time.Minute, "go", "build", "-o", out, "./driver")
 	}
-	drv := filepath.Join(hd, "driver")
-	if err := copyTree(filepath.Join(verifRoot, "harness/chan/_driver"), drv, nil); err != nil {
-		harnessTrouble("copy driver: %v", err)
-	}
-	h.driver = filepath.Join(h.scratch, "driver.bin")
-	mustRun("build simulation driver", hd, goEnv(), 10*time.Minute, "go", "build", "-o", h.driver, "./driver")
 	h.buildS = time.Since(t0).Seconds()
 	return h
+}
+
+// driverFor picks the driver a replay file was recorded with.
+func (h *chanHarness) driverFor(replay string) string {
+	b, err := os.ReadFile(replay)
+	if err == nil {
+		var rf struct {
+			Variant string `json:"variant"`
+		}
+		if json.Unmarshal(b, &rf) == nil && rf.Variant == "go1.21" {
+			return h.driver21
+		}
+	}
+	return h.driver
 }
 
 type workerStats struct {
@@ -148,8 +182,12 @@ func chanCheck(o checkOpts) int {
 			defer wg.Done()
 			sp := filepath.Join(h.scratch, fmt.Sprintf("stats%d.json", w))
 			hp := filepath.Join(h.scratch, fmt.Sprintf("hashes%d.bin", w))
-			outs[w] = runCmd(h.scratch, append(os.Environ(), "GOMAXPROCS=2"), maxWall+10*time.Minute, h.driver,
-				"-prop", o.id, "-seed", fmt.Sprint(o.seed), "-from", fmt.Sprint(w*per), "-to", fmt.Sprint((w+1)*per),
+			drv, variant := h.driver, ""
+			if w >= (jobs+1)/2 && jobs > 1 {
+				drv, variant = h.driver21, "go1.21"
+			}
+			outs[w] = runCmd(h.scratch, append(os.Environ(), "GOMAXPROCS=2"), maxWall+10*time.Minute, drv,
+				"-variant", variant, "-prop", o.id, "-seed", fmt.Sprint(o.seed), "-from", fmt.Sprint(w*per), "-to", fmt.Sprint((w+1)*per),
 				"-stats", sp, "-hashes", hp, "-replaydir", replayDir, "-maxwall", maxWall.String(), "-reporev", rev)
 			b, err := os.ReadFile(sp)
 			if err == nil {
@@ -231,6 +269,7 @@ func chanCheck(o checkOpts) int {
 	cov["per_scenario_runs"] = agg.PerScenario
 	cov["probes"] = agg.Probes
 	cov["faults_fired"] = map[string]int{"stall_started": agg.Probes["sched.stall_started"], "task_withheld(stall or delayed start)": agg.Probes["sched.withheld_applied"], "pct_priority_change": agg.Probes["sched.pct_change"], "do_function_failure_injected": agg.Probes["do.fault_injected"]}
+	cov["language_variants"] = "run indices of the first half of the workers execute the catalogue translated at the module's language version (per-iteration loop variables); the second half the same text at go1.21 (loop variable shared by all iterations)"
 	cov["strategies"] = []string{"uniform random walk over enabled tasks", "PCT with 1-3 priority change points", "stalls (task withheld k steps)", "delayed start of spawned tasks"}
 	cov["components"] = map[string]any{
 		"real": []string{"goderive built from the working tree (main.go, derive/, plugin/*) generating derived.gen.go for each catalogue entry", "every statement of the generated combinators (loops, go statements, WaitGroup calls, select, close, captures, returns), translated 1:1 onto chansim"},
@@ -268,7 +307,7 @@ func chanCheck(o checkOpts) int {
 	reported := map[string]bool{}
 	for _, f := range failing {
 		// confirm in a fresh process
-		r := runCmd(h.scratch, os.Environ(), 2*time.Minute, h.driver, "-replay", f.Replay)
+		r := runCmd(h.scratch, os.Environ(), 2*time.Minute, h.driverFor(f.Replay), "-replay", f.Replay)
 		confirmed := r.Exit == 1 && strings.Contains(r.Stdout, "VIOLATION property="+o.id)
 		if !confirmed {
 			harnessTrouble("NON-REPRODUCIBLE: run %d failed (%s: %s) but its replay %s does not fail the same way in a fresh process:\n%s", f.FirstFail, f.FailClass, f.FailDetail, f.Replay, r.Stdout)
@@ -305,7 +344,7 @@ func chanCheck(o checkOpts) int {
 func chanReplay(prop, path string) int {
 	h := buildChanHarness(prop)
 	defer cleanup()
-	r := runCmd(h.scratch, os.Environ(), 5*time.Minute, h.driver, "-replay", path)
+	r := runCmd(h.scratch, os.Environ(), 5*time.Minute, h.driverFor(path), "-replay", path)
 	fmt.Print(r.Stdout)
 	fmt.Fprint(os.Stderr, r.Stderr)
 	return r.Exit
